@@ -57,4 +57,23 @@ PROPS = {
                  'the oracle slot < slots(class). distinct_nontrivial = distinct (source, slot present, #classes) signatures.'),
         'assumptions': ['JSON parsing (facet) is outside the model: configurations enter the model in a rendered syntax'],
     },
+    'C13': {
+        'oracles': ['C13'],
+        'geoms': {'quick': ['default', 'th1'], 'thorough': ALLG},
+        'runs': {'quick': [seq('mixed', 30, 150), seq('change', 10, 150)],
+                 'thorough': [seq('mixed', 600, 300), seq('change', 200, 300), seq('drain', 200, 300)]},
+        'rule': S_RULE + ' Oracle: every successful get reports the requested class or one the configured policy rates Match/Steal.',
+        'assumptions': ['policy functions are pure (fn pointers without state)'],
+    },
+    'C08': {
+        'oracles': ['C08'],
+        'geoms': {'quick': ['default', 'th1'], 'thorough': ALLG},
+        'runs': {'quick': [seq('malformed', 30, 150), unit('meta', 400)],
+                 'thorough': [seq('malformed', 600, 300), seq('mixed', 200, 300), unit('meta', 40000)]},
+        'rule': S_RULE + (' Malformed stream: orders up to TREE_ORDER+3, frames at/around the range end, misaligned by 1..2^k-1, '
+                          'beyond the range and near usize::MAX, classes 0..7 against 1-3 configured; every rejected call must '
+                          'leave the digest of all three buffers unchanged. unit meta: LLFree::new over buffers carved from one '
+                          'arena: exact size, one byte short, offset by 1..63, overlapping pairs.'),
+        'assumptions': ['class ids are 0..7 (a larger id indexes the 8-entry class table out of bounds in the source)'],
+    },
 }
